@@ -3,14 +3,16 @@ from hypothesis import strategies as st
 from ._pool_common import make_run_case, machine_spec
 
 ID = "C09"
-RULE = ("Pool-machine histories over 1-4 pools incl. commands with pool numbers -1 / num_pools / larger; per container: "
+RULE = ("Pool-machine histories over 1-4 (sometimes 258 / 300) pools incl. commands with pool numbers -1 / num_pools / larger, "
+        "another Executor created mid-episode, one empty call after a refused round (no container may appear, success still "
+        "means all operators completed), a tenth of the episodes with the package's DEBUG logging on; per container: "
         "created once per accepted assignment, exactly one result (success xor failure) in the tick it ends, none for a "
         "finished suspension, never again; success <=> all operators completed; failure => error set and states "
         "completed* failed+; accepted == successes + failures + suspended + live every tick; unknown pool => error. "
         "Non-trivial = episode with a success, a failure and a finished suspension, or a tick with both a success and a "
         "failure; distinct = sha1 of the case JSON")
 ASSUMPTIONS = ["container identifiers are learnt from the implementation (matched through the operators a container holds); nothing is assumed about their format"]
-FLOORS = {"had_failure": 0.1, "had_success": 0.3, "reject_C09": 0.005, "multi_pool": 0.3}
+FLOORS = {"call_after_refusal": 0.05, "other_executor_created_while_containers_live": 0.02, "had_failure": 0.1, "had_success": 0.3, "reject_C09": 0.005, "multi_pool": 0.3}
 
 
 def plan(tier):
